@@ -1,7 +1,7 @@
 ------------------------------- MODULE TraceRC -------------------------------
 (* C20: validates the results the real to_reason_code<category>(byte) gave for *)
-(* all 9 x 256 pairs (file named by env TRACE) against ReasonCodes.  One state *)
-(* per category; every pair must be present exactly once (exhaustive).         *)
+(* all 9 x 256 pairs, and again in history-dependent orders (file named by env  *)
+(* TRACE), against ReasonCodes.  One state per record.                          *)
 EXTENDS ReasonCodes, Json, IOUtils, TLC, Sequences, FiniteSets
 
 ASSUME TablesSane
@@ -21,8 +21,11 @@ Next == /\ i <= Len(Res)
         /\ i' = i + 1
 Spec == Init /\ [][Next]_i
 
-Complete == /\ Len(Res) = 9 * 256
-            /\ Cardinality({<<Res[k].cat, Res[k].b>> : k \in DOMAIN Res}) = 9 * 256
+\* the first 9 x 256 records are the exhaustive enumeration (every pair exactly once); the records after them repeat
+\* lookups in other orders (every byte again right after each category accepted it): the verdict must not depend on
+\* the history of earlier lookups
+Complete == /\ Len(Res) >= 9 * 256
+            /\ Cardinality({<<Res[k].cat, Res[k].b>> : k \in 1..(9 * 256)}) = 9 * 256
             /\ \A k \in DOMAIN Res : Res[k].cat \in Cats /\ Res[k].b \in 0..255
 Accepted == \/ (TLCGet("stats").diameter - 1 = Len(Res) /\ Complete)
             \/ PrintT("REJECTED") /\ FALSE
